@@ -760,6 +760,25 @@ func runC08(c *RunCtx) {
 			return
 		}
 	}
+	if t.Intn(3) == 0 {
+		// the application keeps the decoded message, more traffic of the same type is decoded (a
+		// close relative, into another receiver) and encoded, then the kept message is encoded again
+		var vb bytes.Buffer
+		if rr := tryEncode(variantOf(s.pre, t.Bulk()), &vb); rr.Err == nil && rr.Panic == nil {
+			other := newValue(name)
+			if rr := tryDecode(other, bytes.NewBuffer(cloneBytes(vb.Bytes()))); rr.Err == nil && rr.Panic == nil {
+				tryEncode(other, &bytes.Buffer{})
+			}
+		}
+		var again bytes.Buffer
+		r3 := tryEncode(recv, &again)
+		c.Fire("hist.later-reencode")
+		c.Oracle("later-reencode-same-bytes")
+		if r3.Panic != nil || r3.Err != nil || !bytes.Equal(again.Bytes(), e) {
+			c.Fail("C08/later-reencode-differs", name, "the decoded %s re-encoded to the consumed bytes at first, but after another message of the type had been decoded and encoded in between, encoding the same (kept) object gives different bytes (err=%v panic=%v, first difference at %d): what the decoder handed out did not stay the caller's", name, r3.Err, r3.Panic, firstDiff(again.Bytes(), e))
+			return
+		}
+	}
 	if geom != nil && geom.Computed && len(e) >= geom.HeaderLen+geom.TrailerLen {
 		v := geom.verifyFrame(e)
 		c.Oracle("computed-fields-unchanged-or-correct")
@@ -1210,7 +1229,7 @@ func runC15(c *RunCtx) {
 func init() {
 	register(&scenario{
 		Prop: "C16", Run: runC16, Level: "exploration", Quick: 800000, Thorough: 12000000,
-		Rule:        "one run = (decode side) a canonical message's bytes placed in a pooled buffer over a simulator-owned backing array, decoded, the result deep-copied (texts byte-copied), then the pool recycles the buffer: every byte of the array's capacity is overwritten, the buffer Reset and reused for other traffic which is decoded too; or (encode side) a message encoded into a pooled buffer, the bytes snapshotted, then every list element, text and nested part of the message overwritten in place and bodies replaced, then another message encoded behind it. Oracles: decoded message == its copy after recycling; written bytes == snapshot after mutating the message and after the next encode. Non-trivial = the recycle/mutation actually changed memory and the oracle ran; distinct = distinct run fingerprints.",
+		Rule:        "one run = (decode side) a canonical message's bytes placed in a pooled buffer over a simulator-owned backing array, decoded, the result deep-copied (texts byte-copied), then the pool recycles the buffer: every byte of the array's capacity is overwritten, the buffer Reset and reused for other traffic which is decoded too; or (retained parts) an envelope decoded into twice while the application keeps the first body, with more traffic of that body's type decoded elsewhere: a body the library replaced must never change again; rarely preceded by 300-66000 earlier decodes of the type with other values (a long-lived process); or (encode side) a message encoded into a pooled buffer, the bytes snapshotted, then every list element, text and nested part of the message overwritten in place and bodies replaced, then another message encoded behind it. Oracles: decoded message == its copy after recycling; written bytes == snapshot after mutating the message and after the next encode. Non-trivial = the recycle/mutation actually changed memory and the oracle ran; distinct = distinct run fingerprints.",
 		Assumptions: []string{"Go strings are never written through; only simulator-owned arrays and the message's own slices are overwritten"},
 	})
 }
@@ -1228,7 +1247,32 @@ func runC16(c *RunCtx) {
 	}
 	c.Count("type."+name, 1)
 	c.LogValue("MESSAGE "+name, s.pre)
-	if t.Intn(2) == 0 {
+	churnRate := 8000
+	if c.Thorough {
+		churnRate = 2500
+	}
+	if t.Chance(1, churnRate) {
+		// a long-lived process: many earlier decodes of this type with other values (bounded
+		// tables, counters and growth thresholds inside the library fill up)
+		k := []int{300, 5000, 66000}[t.Intn(3)]
+		sub := &Gen{t: NewTape(t.Draw(1 << 32)), cfg: GenCfg{ListCap: 1, StrCap: 8, Alphabet: 0}}
+		sub.t.MaxLen = 1 << 30
+		for i := 0; i < k; i++ {
+			sub.t.Out = sub.t.Out[:0]
+			var b bytes.Buffer
+			if r := tryEncode(sub.Value(name), &b); r.Err == nil && r.Panic == nil {
+				tryDecode(newValue(name), &b)
+			}
+		}
+		c.Fire("hist.long-process")
+		c.Logf("PROCESS HISTORY: %d earlier decodes of %s with other values", k, name)
+	}
+	mode := t.Intn(5)
+	if mode == 4 && schema.Types[name].Table != "" {
+		c16Retained(c, g, name, s)
+		return
+	}
+	if mode%2 == 0 {
 		// ---- decode side
 		slack := []int{0, 1, 64, 4096}[t.Intn(4)]
 		lead := []int{0, 3, 64}[t.Intn(3)] // bytes already consumed in the pooled buffer
@@ -1306,6 +1350,86 @@ func runC16(c *RunCtx) {
 		}
 	}
 	c.T.ObserveBytes(snap)
+}
+
+// c16Retained: an envelope (frame or extended message) is decoded into, the application keeps
+// the body it got, decodes the next message into the same envelope, and more traffic of the
+// first body's type is decoded elsewhere.  A body that the library REPLACED in the envelope
+// (identity no longer reachable from it) belongs to the application: it must never change again.
+// A part that the library overwrote in place (same identity still in the envelope) is the
+// documented in-place reuse and is not compared.
+func c16Retained(c *RunCtx, g *Gen, name string, s *sent) {
+	t := c.T
+	env := newValue(name)
+	if r := tryDecode(env, bytes.NewBuffer(cloneBytes(s.w))); r.Err != nil || r.Panic != nil {
+		c.Probe("skip.decode-failed")
+		return
+	}
+	type part struct {
+		id   uintptr
+		obj  any
+		snap any
+		path string
+	}
+	var parts []part
+	var collect func(rv reflect.Value, ts *TypeSchema, path string, into *[]part)
+	collect = func(rv reflect.Value, ts *TypeSchema, path string, into *[]part) {
+		for i := range ts.Fields {
+			f := &ts.Fields[i]
+			if f.Kind != "body" {
+				continue
+			}
+			fv := fieldOf(rv, f.Name)
+			if fv.IsNil() || fv.Elem().Kind() != reflect.Ptr || fv.Elem().IsNil() {
+				continue
+			}
+			obj := fv.Elem().Interface()
+			*into = append(*into, part{fv.Elem().Pointer(), obj, Clone(obj), path + "." + f.Name})
+			if dn := typeNameOfType(fv.Elem().Type()); schema.Types[dn] != nil {
+				collect(fv.Elem().Elem(), schemaOf(dn), path+"."+f.Name, into)
+			}
+		}
+	}
+	collect(reflect.ValueOf(env).Elem(), schemaOf(name), "$", &parts)
+	if len(parts) == 0 {
+		c.Probe("skip.no-body")
+		return
+	}
+	// next message into the same envelope
+	next, ok := genSent(c, g, name)
+	if !ok {
+		return
+	}
+	if r := tryDecode(env, bytes.NewBuffer(cloneBytes(next.w))); r.Err != nil || r.Panic != nil {
+		c.Probe("skip.decode-failed")
+		return
+	}
+	c.Fire("recv.dirty")
+	// more traffic carrying the first body's type, decoded into other envelopes
+	for i := 0; i < 1+t.Intn(2); i++ {
+		var vb bytes.Buffer
+		if rr := tryEncode(variantOf(s.pre, t.Bulk()), &vb); rr.Err == nil && rr.Panic == nil {
+			tryDecode(newValue(name), bytes.NewBuffer(cloneBytes(vb.Bytes())))
+		}
+	}
+	var now []part
+	collect(reflect.ValueOf(env).Elem(), schemaOf(name), "$", &now)
+	still := map[uintptr]bool{}
+	for _, p := range now {
+		still[p.id] = true
+	}
+	for _, p := range parts {
+		if still[p.id] {
+			c.Probe("part-reused-in-place(not compared)")
+			continue
+		}
+		c.Oracle("retained-part-unchanged")
+		if ok, d := Equal(p.snap, p.obj); !ok {
+			c.Fail("C16/retained-part-changed", name, "the %s that Decode handed out in %s%s was replaced in the envelope by the next decode, yet it changed afterwards (at %s) when other messages were decoded elsewhere: decoded messages share memory with each other through the library", typeNameOf(p.obj), name, p.path[1:], d)
+			return
+		}
+	}
+	c.T.Observe(uint64(len(parts)))
 }
 
 // aliasLists rearranges the numeric and text lists reachable from a value so that lists of the
